@@ -326,3 +326,22 @@ func ZeroKey[K comparable, V any](m map[K]V) K {
 	var z K
 	return z
 }
+
+// ChanLen is len(ch) for a channel of the rewritten package: the number of buffered elements in
+// the virtual channel. It is a visible operation (the answer depends on the schedule).
+func ChanLen(ch any, site string) int {
+	v := reflect.ValueOf(ch)
+	e := cur
+	if e == nil || e.running == nil || v.IsNil() {
+		if v.IsNil() {
+			return 0
+		}
+		return v.Len()
+	}
+	c := e.lookup(v.UnsafePointer(), v.Cap(), ch)
+	if c == nil {
+		return v.Len()
+	}
+	e.wait(site, "chanlen", nil, false, &c.obj)
+	return len(c.buf)
+}
